@@ -111,6 +111,9 @@ def service_type_name(type_: str, *, strict: bool = True) -> str:  # pylint: dis
 
         test_service_name = service_name[1:]
 
+        if not test_service_name:
+            raise BadTypeInNameException("Service name (%s) must not be empty after the '_'" % service_name)
+
         if strict and len(test_service_name) > 15:
             # https://datatracker.ietf.org/doc/html/rfc6763#section-7.2
             raise BadTypeInNameException("Service name (%s) must be <= 15 bytes" % test_service_name)
